@@ -13,7 +13,7 @@ class C20(Plugin):
     shard = 300
     impl_jobs = 4
     design_ref = "DESIGN.md 4/C20, 3.7"
-    rule = ("case = (HTTP version, Host header value(s), request URI, TLS info: none / no SNI / SNI string, validated flag already set on arrival or not) through the public "
+    rule = ("case = (HTTP version, Host header value(s), request URI, TLS info: none / no SNI / SNI string, validated flag already set on arrival or not; single requests and sequences of 2-4 requests of different connections through ONE service value and clones of it) through the public "
             "ValidateSNI layer around a recording inner service; observed: forwarded (with the validated flag the inner "
             "service saw) or the rejection kind; non-trivial = TLS info present and a host named; distinct = distinct tuples")
     trusted = [
@@ -48,6 +48,12 @@ class C20(Plugin):
         # the TLS info arrives with its validated flag already set (stacked layers, re-dispatched extensions)
         pm = [c + [1] for c in (full[5000:6200] if tier == "quick" else full[::3]) if c[3] != "none"]
         cases = cases + pm
+        # several requests of DIFFERENT connections (different server names, none, no TLS) through one service value and
+        # clones of it: the verdict for a request depends on that request alone
+        nseq = 150 if tier == "quick" else 3000
+        pool_ = [c for c in full if c[3] != "none" or rng.random() < 0.1]
+        for _ in range(nseq):
+            cases.append(["SEQ", [list(rng.choice(pool_)) + [rng.choice([0, 0, 0, 1])] for _ in range(rng.randint(2, 4))]])
         # two Host headers (first one counts), invalid host values
         for tls in tls_opts:
             cases.append(["11", ["example.com", "other.test"], "/", tls])
@@ -58,6 +64,8 @@ class C20(Plugin):
                        "exhaustive": tier != "quick"}
 
     def impl_line(self, c):
+        if c[0] == "SEQ":
+            return " || ".join(self.impl_line(x) for x in c[1])
         v, hosts, uri, tls = c[:4]
         hx = lambda s: s.encode().hex()
         h = "-" if not hosts else ("+" if len(hosts) > 1 else "") + ",".join(hx(x) for x in hosts)
@@ -65,6 +73,8 @@ class C20(Plugin):
         return f"{v} {h} {uri} {t} {c[4] if len(c) > 4 else 0}"
 
     def parse_obs(self, c, line):
+        if c[0] == "SEQ":
+            return [self.parse_obs(x, l) for x, l in zip(c[1], line.split(" || "))]
         dec, res = line.split(" ;; ")
         hd, ud, sd = dec.split(" ")
         return {"hdr": hd, "uri": ud, "sni": sd, "res": res}
@@ -99,14 +109,22 @@ class C20(Plugin):
         obss = [self.parse_obs(c, o) for c, o in zip(cases, outs)]
         idx, terms = [], []
         for i, (c, o) in enumerate(zip(cases, obss)):
-            t = self.terms(c, o)
-            if t is not None:
-                idx.append(i)
-                terms.append(f"({t[0]}, {t[1]})")
+            pairs = list(zip(c[1], o)) if c[0] == "SEQ" else [(c, o)]
+            for cc, oo in pairs:            # every request of a sequence is judged on its own; the case index is shared
+                t = self.terms(cc, oo)
+                if t is not None:
+                    idx.append(i)
+                    terms.append(f"({t[0]}, {t[1]})")
         mism, monf = coq_check_cases(self.prop, self.header, terms, self.check_fn, self.shard)
-        return obss, [idx[i] for i in mism], [idx[i] for i in monf]
+        return obss, sorted({idx[i] for i in mism}), sorted({idx[i] for i in monf})
 
     def shrinks(self, c):
+        if c[0] == "SEQ":
+            xs = c[1]
+            for i in range(len(xs)):
+                if len(xs) > 1:
+                    yield ["SEQ", xs[:i] + xs[i + 1:]]
+            return
         v, hosts, uri, tls = c[:4]
         x = c[4:]
         if x and x[0]:
@@ -122,13 +140,19 @@ class C20(Plugin):
                 yield [v, [h.split(":")[0]], uri, tls] + x
 
     def nontrivial_key(self, c, o):
+        if c[0] == "SEQ":
+            return repr(c)
         if c[3] != "none" and (c[1] or "://" in c[2]):
             return repr(c)
         return None
 
     def histogram(self, cases, obss):
-        h = {"result": {}, "version": {}, "tls": {}, "premarked": sum(1 for c in cases if len(c) > 4 and c[4])}
+        h = {"result": {}, "version": {}, "tls": {}, "premarked": sum(1 for c in cases if c[0] != "SEQ" and len(c) > 4 and c[4])}
+        h["sequences"] = sum(1 for c in cases if c[0] == "SEQ")
+        flat = []
         for c, o in zip(cases, obss):
+            flat += list(zip(c[1], o)) if c[0] == "SEQ" else [(c, o)]
+        for c, o in flat:
             h["result"][o["res"]] = h["result"].get(o["res"], 0) + 1
             h["version"][c[0]] = h["version"].get(c[0], 0) + 1
             k = c[3].split(":")[0]
